@@ -153,6 +153,10 @@ def py_eval(e, env):
     if k == "var":
         v = env[e[1]]
         return v
+    if k == "par":
+        return env["{" + e[1] + "}"]
+    if k == "reg":
+        return env["q" + str(e[1])]
     if k == "idx":
         i = py_eval(e[2], env)
         arr = env[e[1]]
@@ -173,6 +177,17 @@ def py_eval(e, env):
     for v in (a, b):
         if isinstance(v, (bool, str, tuple)):
             raise OutOfDomain("non-numeric operand")
+    if not all(isinstance(v, (int, float, complex)) for v in (a, b)):
+        # symbolic operand (SymPy): the operators are overloaded
+        if k == "add":
+            return a + b
+        if k == "sub":
+            return a - b
+        if k == "mul":
+            return a * b
+        if k == "div":
+            return a / b
+        return a ** b
     try:
         if k == "add":
             return a + b
@@ -809,3 +824,491 @@ def features(script):
     if script.get("type"):
         f.add("type")
     return f
+
+
+# ------------------------------------------------------------------ python-side denotation (oracle of C02)
+
+def cval(v):
+    """python value -> canonical value"""
+    if isinstance(v, bool):
+        return ("b", v)
+    if isinstance(v, int):
+        return ("i", v)
+    if isinstance(v, float):
+        return ("f", v)
+    if isinstance(v, complex):
+        return ("c", v)
+    if isinstance(v, str):
+        return ("s", v)
+    if isinstance(v, tuple) and len(v) == 4:
+        ty, r, c, flat = v
+        return ("arr", ty, r, c, [cval(x) for x in flat])
+    raise ValueError(v)
+
+
+def d_val(v, env):
+    if v[0] == "expr":
+        return cval(py_eval(v[1], env))
+    if v[0] == "str":
+        return ("s", v[1])
+    if v[0] == "bool":
+        return ("b", v[1])
+    raise ValueError(v)
+
+
+def d_args(a, env):
+    if a is None:
+        return None
+    pos = [d_val(v, env) for v in a["pos"]]
+    kw = {}
+    order = []
+    for k, v in a["kw"]:
+        if v[0] == "list":
+            x = ("list", [d_val(e, env) for e in v[1]])
+        else:
+            x = d_val(v, env)
+        if k not in kw:
+            order.append(k)
+        kw[k] = x
+    return (pos, [(k, kw[k]) for k in order])
+
+
+CAST = {"int": int, "float": float, "complex": complex, "str": str, "bool": bool}
+
+
+def d_stmt(s, env, ops, modes):
+    _, op, args, lb, ms, rb = s
+    mvals = []
+    for m in ms:
+        v = py_eval(m, env)
+        if not isinstance(v, int) or isinstance(v, bool):
+            raise OutOfDomain("mode")
+        mvals.append(v)
+    ops.append({"op": op, "args": d_args(args, env), "modes": mvals})
+    modes.update(mvals)
+
+
+def denote(script):
+    """The program a (parameter-free, include-free) script denotes, computed from the AST with
+    ordinary Python arithmetic: an oracle independent of both the model and the implementation."""
+    env = {}
+    ops = []
+    modes = set()
+
+    def meta(m):
+        if m is None:
+            return {"name": None, "options": []}
+        name, args = m
+        return {"name": name, "options": d_args(args, {})[1] if args else []}
+
+    for it in script["items"]:
+        k = it[0]
+        if k == "var":
+            _, ty, name, val = it
+            if val[0] == "expr":
+                env[name] = CAST[ty](py_eval(val[1], env))
+            else:
+                env[name] = val[1]
+        elif k == "arr":
+            _, ty, name, shape, rows = it
+            flat = [CAST[ty](py_eval(e, env)) for row in rows for e in row]
+            env[name] = (ty, len(rows), len(rows[0]), flat)
+        elif k == "stmt":
+            d_stmt(it, env, ops, modes)
+        elif k == "loop":
+            _, ty, x, header, body = it
+            if header[0] == "range":
+                _, a, b, c = header
+                vals = list(range(a, b, c if c is not None else 1))
+            else:
+                vals = []
+                for v in header[2]:
+                    if v[0] == "expr":
+                        vals.append(py_eval(v[1], env))
+                    else:
+                        vals.append(v[1])
+            for v in vals:
+                env[x] = CAST[ty](v)
+                for s in body:
+                    d_stmt(s, env, ops, modes)
+            env.pop(x, None)
+    return {"name": script["name"], "version": script["version"], "target": meta(script.get("target")),
+            "type": meta(script.get("type")), "ops": ops,
+            "vars": [(k, cval(v)) for k, v in env.items()], "params": [], "modes": sorted(modes)}
+
+
+# ------------------------------------------------------------------ symbolic expressions (templates, registers)
+
+def expr_symbols(e, acc=None):
+    """names of {parameters} and qN registers written in an expression"""
+    acc = set() if acc is None else acc
+    k = e[0]
+    if k == "par":
+        acc.add("{" + e[1] + "}")
+    elif k == "reg":
+        acc.add("q" + str(e[1]))
+    elif k in ("brk", "pos", "neg"):
+        expr_symbols(e[1], acc)
+    elif k in ("fn", "idx"):
+        expr_symbols(e[2], acc)
+    elif k in ("add", "sub", "mul", "div", "pow"):
+        expr_symbols(e[1], acc)
+        expr_symbols(e[2], acc)
+    return acc
+
+
+def gen_symexpr_raw(rng, leaves, depth, scope=None):
+    """polynomial / rational expression over the given symbolic leaves with int/float coefficients"""
+    if depth <= 0 or rng.random() < 0.3:
+        r = rng.random()
+        if r < 0.6:
+            return rng.choice(leaves)
+        if r < 0.8:
+            return ("int", str(rng.randrange(1, 8)))
+        if scope is not None and scope.names_of("float") and r < 0.88:
+            return ("var", rng.choice(scope.names_of("float")))
+        return ("float", rng.choice(["0.5", "1.5", "0.25", "2.0", "0.1", "3.75", "1e-1"]))
+    d = depth - 1
+    r = rng.random()
+    if r < 0.1:
+        return ("neg", gen_symexpr_raw(rng, leaves, d, scope))
+    if r < 0.16:
+        return ("brk", gen_symexpr_raw(rng, leaves, d, scope))
+    if r < 0.25:
+        return ("pow", gen_symexpr_raw(rng, leaves, min(d, 1), scope), ("int", str(rng.randrange(2, 4))))
+    if r < 0.35:
+        return ("div", gen_symexpr_raw(rng, leaves, d, scope), ("int", str(rng.randrange(2, 6))))
+    if r < 0.42:
+        return ("div", ("int", str(rng.randrange(1, 4))), gen_symexpr_raw(rng, leaves, min(d, 1), scope))
+    op = rng.choice(["add", "sub", "mul", "add", "mul"])
+    return (op, gen_symexpr_raw(rng, leaves, d, scope), gen_symexpr_raw(rng, leaves, d, scope))
+
+
+def gen_symexpr(rng, leaves, depth, scope=None, need_all=False, tries=30):
+    """Expression in which every written symbol survives SymPy's simplification (no identical
+    cancellation) and which is finite at the comparison points."""
+    import sympy
+    for _ in range(tries):
+        e = fix(gen_symexpr_raw(rng, leaves, depth, scope))
+        syms = sorted(expr_symbols(e))
+        if not syms:
+            continue
+        if need_all and len(syms) != len(leaves):
+            continue
+        env = dict(scope.vals) if scope is not None else {}
+        env.update({n: sympy.Symbol(n.strip("{}")) for n in syms})
+        try:
+            v = py_eval(e, env)
+        except (OutOfDomain, ZeroDivisionError):
+            continue
+        if not isinstance(v, sympy.Expr):
+            continue
+        if sorted(str(x) for x in v.free_symbols) != sorted(n.strip("{}") for n in syms):
+            continue
+        if v.has(sympy.zoo, sympy.nan, sympy.oo):
+            continue
+        return e
+    return leaves[0]
+
+
+def subst_expr(e, sigma):
+    """replace {p} by its parenthesised value (sigma: name -> expression AST of a literal)"""
+    k = e[0]
+    if k == "par":
+        return ("brk", sigma[e[1]])
+    if k in ("brk", "pos", "neg"):
+        return (k, subst_expr(e[1], sigma))
+    if k == "fn":
+        return (k, e[1], subst_expr(e[2], sigma))
+    if k == "idx":
+        return (k, e[1], subst_expr(e[2], sigma))
+    if k in ("add", "sub", "mul", "div", "pow"):
+        return (k, subst_expr(e[1], sigma), subst_expr(e[2], sigma))
+    return e
+
+
+def literal_of(v):
+    """expression AST denoting the Python number v exactly"""
+    if isinstance(v, bool):
+        raise ValueError(v)
+    if isinstance(v, int):
+        return ("int", str(v)) if v >= 0 else ("neg", ("int", str(-v)))
+    if isinstance(v, float):
+        t = repr(abs(v))
+        if "." not in t and "e" not in t and "E" not in t:
+            t += ".0"
+        if "inf" in t or "nan" in t:
+            raise ValueError(v)
+        return ("float", t) if (v >= 0 and not str(v).startswith("-")) else ("neg", ("float", t))
+    if isinstance(v, complex):
+        def part(x):
+            t = repr(abs(x))
+            return t
+        re_, im = v.real, v.imag
+        txt = ("-" if str(re_).startswith("-") else "") + part(re_) + ("-" if str(im).startswith("-") else "+") + part(im) + "j"
+        return ("complex", txt)
+    raise ValueError(v)
+
+
+def subst_val(v, sigma):
+    if v[0] == "expr":
+        return ("expr", subst_expr(v[1], sigma))
+    return v
+
+
+def subst_args(a, sigma):
+    if a is None:
+        return None
+    kw = []
+    for k, v in a["kw"]:
+        if v[0] == "list":
+            kw.append((k, ("list", [subst_val(x, sigma) for x in v[1]])))
+        else:
+            kw.append((k, subst_val(v, sigma)))
+    return {"pos": [subst_val(v, sigma) for v in a["pos"]], "kw": kw}
+
+
+def subst_stmt(s, sigma):
+    _, op, args, lb, modes, rb = s
+    return ("stmt", op, subst_args(args, sigma), lb, [subst_expr(m, sigma) for m in modes], rb)
+
+
+def subst_script(script, sigma, arrays=None):
+    """textual substitution of C04 at AST level; arrays: name -> rows of literal ASTs for
+    whole-array parameters"""
+    arrays = arrays or {}
+    out = dict(script)
+    items = []
+    for it in script["items"]:
+        k = it[0]
+        if k == "var":
+            items.append(("var", it[1], it[2], subst_val(it[3], sigma)))
+        elif k == "arr":
+            rows = it[4]
+            if len(rows) == 1 and len(rows[0]) == 1 and rows[0][0][0] == "par" and rows[0][0][1] in arrays:
+                rows = arrays[rows[0][0][1]]
+            else:
+                rows = [[(sigma[e[1]] if e[0] == "par" else subst_expr(e, sigma)) for e in row] for row in rows]
+            items.append(("arr", it[1], it[2], it[3], rows))
+        elif k == "stmt":
+            items.append(subst_stmt(it, sigma))
+        elif k == "loop":
+            items.append(("loop", it[1], it[2], it[3], [subst_stmt(s, sigma) for s in it[4]]))
+    out["items"] = items
+    return out
+
+
+def unroll_script(script):
+    """textual unrolling of C06 at AST level: every loop is replaced by its body once per value,
+    with the loop variable replaced by a literal of the declared type"""
+    out = dict(script)
+    items = []
+    for it in script["items"]:
+        if it[0] != "loop":
+            items.append(it)
+            continue
+        _, ty, x, header, body = it
+        if header[0] == "range":
+            vals = [("i", v) for v in range(header[1], header[2], header[3] if header[3] is not None else 1)]
+        else:
+            vals = [("v", v) for v in header[2]]
+        for kind, v in vals:
+            if kind == "i":
+                lit = {"int": ("int", str(v)), "float": ("float", repr(float(v)))}[ty]
+                val_lit = ("expr", lit)
+            else:
+                val_lit = v          # keep the written value; conversion is the identity inside the domain
+            for s in body:
+                items.append(replace_var_stmt(s, x, val_lit))
+    out["items"] = items
+    return out
+
+
+def replace_var_expr(e, x, lit):
+    k = e[0]
+    if k == "var" and e[1] == x:
+        return ("brk", lit)
+    if k in ("brk", "pos", "neg"):
+        return (k, replace_var_expr(e[1], x, lit))
+    if k == "fn":
+        return (k, e[1], replace_var_expr(e[2], x, lit))
+    if k == "idx":
+        return (k, e[1], replace_var_expr(e[2], x, lit))
+    if k in ("add", "sub", "mul", "div", "pow"):
+        return (k, replace_var_expr(e[1], x, lit), replace_var_expr(e[2], x, lit))
+    return e
+
+
+def replace_var_val(v, x, val_lit):
+    if v[0] == "expr":
+        if v[1] == ("var", x):
+            return val_lit
+        if val_lit[0] == "expr":
+            return ("expr", replace_var_expr(v[1], x, val_lit[1]))
+    return v
+
+
+def replace_var_stmt(s, x, val_lit):
+    _, op, args, lb, modes, rb = s
+    if args is not None:
+        kw = []
+        for k, v in args["kw"]:
+            if v[0] == "list":
+                kw.append((k, ("list", [replace_var_val(e, x, val_lit) for e in v[1]])))
+            else:
+                kw.append((k, replace_var_val(v, x, val_lit)))
+        args = {"pos": [replace_var_val(v, x, val_lit) for v in args["pos"]], "kw": kw}
+    if val_lit[0] == "expr":
+        modes = [replace_var_expr(m, x, val_lit[1]) for m in modes]
+    return ("stmt", op, args, lb, modes, rb)
+
+
+# ------------------------------------------------------------------ templates, register transforms, tdm
+
+def gen_template(rng, cfg=None):
+    """A template script: a base script plus {parameters} in every slot C04 lists. Returns
+    (script, info) with info = {"params": [...scalar names], "array_params": {name: (r, c)}}"""
+    cfg = dict(cfg or {})
+    cfg.setdefault("loops", True)
+    script, scope = gen_script(rng, cfg)
+    npar = rng.randrange(1, 5)
+    pool = list(PAR_NAMES)
+    if cfg.get("no_pnames", True):
+        pool = [p for p in pool if not is_pname(p)]
+    names = rng.sample(pool, npar)
+    leaves = [("par", n) for n in names]
+    used = set()
+    arr_params = {}
+    items = list(script["items"])
+
+    def symval(depth=2, sub=None):
+        ls = sub or rng.sample(leaves, rng.randrange(1, min(3, len(leaves)) + 1))
+        e = gen_symexpr(rng, ls, depth, scope)
+        used.update(n.strip("{}") for n in expr_symbols(e))
+        return ("expr", e)
+
+    # parameters in statements (positional, keyword)
+    stmts = [i for i, it in enumerate(items) if it[0] == "stmt"]
+    for i in stmts:
+        if rng.random() < 0.6:
+            _, op, args, lb, modes, rb = items[i]
+            args = copy_args(args) if args is not None else {"pos": [], "kw": []}
+            r = rng.random()
+            if r < 0.6:
+                args["pos"].insert(rng.randrange(len(args["pos"]) + 1), symval())
+            if r > 0.4:
+                args["kw"].append((rng.choice(KW_NAMES), symval()))
+            items[i] = ("stmt", op, args, lb, modes, rb)
+    # parameters in loop bodies (loops that execute at least once)
+    for i, it in enumerate(items):
+        if it[0] == "loop" and rng.random() < 0.7:
+            _, ty, x, header, body = it
+            nb = []
+            for s in body:
+                _, op, args, lb, modes, rb = s
+                args = copy_args(args) if args is not None else {"pos": [], "kw": []}
+                args["pos"].append(symval())
+                nb.append(("stmt", op, args, lb, modes, rb))
+            items[i] = ("loop", ty, x, header, nb)
+    extra = []
+    # scalar initialiser holding a parameter expression, then used as an argument
+    if rng.random() < 0.5:
+        vn = scope.fresh(rng)
+        extra.append(("var", rng.choice(["float", "complex", "int"]), vn, symval()))
+        extra.append(("stmt", rng.choice(OP_NAMES), {"pos": [("expr", ("var", vn))], "kw": []}, None,
+                      [("int", str(rng.randrange(4)))], None))
+    # array with bare parameters among its elements
+    if rng.random() < 0.5:
+        an = scope.fresh(rng)
+        ty = rng.choice(["float", "complex", "int"])
+        nr, nc = rng.randrange(1, 4), rng.randrange(1, 4)
+        if nr * nc == 1:
+            nc = 2
+        rows = []
+        for _ in range(nr):
+            row = []
+            for _ in range(nc):
+                if rng.random() < 0.45:
+                    p = rng.choice(names)
+                    used.add(p)
+                    row.append(("par", p))
+                else:
+                    e, _v = gen_expr(rng, scope, ty if rng.random() < 0.7 else "int", 1)
+                    row.append(e)
+            rows.append(row)
+        extra.append(("arr", ty, an, [nr, nc] if rng.random() < 0.5 else None, rows))
+        if rng.random() < 0.5:
+            extra.append(("stmt", rng.choice(OP_NAMES), {"pos": [("expr", ("var", an))], "kw": []}, None,
+                          [("int", "0")], None))
+    # whole-array parameter with a declared shape
+    if rng.random() < 0.35:
+        an = scope.fresh(rng, ["U", "V", "W", "Uni", "M2"])
+        r, c = rng.randrange(1, 4), rng.randrange(1, 4)
+        if r * c == 1 and not cfg.get("allow_1x1_array_param"):
+            # a 1x1 whole-array parameter is indistinguishable, once serialised, from a 1x1 array
+            # holding one scalar parameter (open finding C01-1x1-array-parameter)
+            c = 2
+        arr_params[an] = (r, c)
+        extra.append(("arr", rng.choice(["float", "complex"]), an, [r, c], [[("par", an)]]))
+        if rng.random() < 0.6:
+            extra.append(("stmt", "Interferometer", {"pos": [("expr", ("var", an))], "kw": []}, None,
+                          [("int", str(k)) for k in range(2)], "square" if False else None))
+    # make sure every chosen scalar parameter is used at least once
+    for n in names:
+        if n not in used:
+            extra.append(("stmt", rng.choice(OP_NAMES), {"pos": [symval(1, [("par", n)])], "kw": []}, None,
+                          [("int", str(rng.randrange(4)))], None))
+    # interleave the extra items (declarations before their uses: keep their relative order)
+    pos = sorted(rng.randrange(len(items) + 1) for _ in extra)
+    for off, (p, it) in enumerate(zip(pos, extra)):
+        items.insert(p + off, it)
+    script = dict(script)
+    script["items"] = items
+    return script, {"params": sorted(used), "array_params": arr_params}, scope
+
+
+def copy_args(a):
+    return {"pos": list(a["pos"]), "kw": list(a["kw"])}
+
+
+def gen_param_values(rng, info, exact_friendly=True):
+    """finite generic values for the parameters of a template"""
+    vals = {}
+    for n in info["params"]:
+        r = rng.random()
+        if r < 0.3:
+            vals[n] = rng.choice([1, 2, 3, 5, 7])
+        elif exact_friendly:
+            vals[n] = rng.choice([1, 3, 5, 7, 9, 11]) / rng.choice([2, 4, 8]) + rng.choice([0.0, 1.0, 2.0])
+        else:
+            vals[n] = rng.uniform(0.3, 3.0)
+    arrays = {}
+    for n, (r, c) in info["array_params"].items():
+        arrays[n] = [[rng.choice([1, 3, 5, 7]) / rng.choice([2, 4]) for _ in range(c)] for _ in range(r)]
+    return vals, arrays
+
+
+def gen_rrt_script(rng, cfg=None):
+    """A script whose arguments include expressions over measured registers."""
+    cfg = dict(cfg or {})
+    script, scope = gen_script(rng, cfg)
+    items = list(script["items"])
+    cases = []
+    nreg = rng.randrange(1, 6)
+    regs = rng.sample(range(0, 12), nreg)
+    for k in range(rng.randrange(1, 4)):
+        sub = rng.sample(regs, rng.randrange(1, nreg + 1))
+        e = gen_symexpr(rng, [("reg", r) for r in sub], rng.choice([1, 2, 3]), scope, need_all=rng.random() < 0.5)
+        kwpos = rng.random() < 0.4
+        plain, _v = gen_expr(rng, scope, rng.choice(["int", "float"]), 1)
+        if kwpos:
+            args = {"pos": [("expr", plain)], "kw": [(rng.choice(KW_NAMES), ("expr", e))]}
+        else:
+            args = {"pos": [("expr", e), ("expr", plain)], "kw": []}
+        st = ("stmt", rng.choice(["Dgate", "Xgate", "Zgate", "G"]), args, None, [("int", str(rng.randrange(6)))], None)
+        at = rng.randrange(len(items) + 1)
+        items.insert(at, st)
+        cases.append((e, kwpos))
+    script = dict(script)
+    script["items"] = items
+    return script, scope, cases
